@@ -186,11 +186,15 @@ func (c *EvalCtx) eval(e *Expr) CV {
 		c.want(body, "Bool", e)
 		bt := body.T
 		if len(e.Args) > 1 {
-			var ps []string
-			for _, te := range e.Args[1:] {
-				ps = append(ps, n.eval(te).T)
+			bt = "(! " + bt
+			for _, grp := range e.Args[1:] {
+				var ps []string
+				for _, te := range grp.Args {
+					ps = append(ps, n.eval(te).T)
+				}
+				bt += " :pattern (" + strings.Join(ps, " ") + ")"
 			}
-			bt = "(! " + bt + " :pattern (" + strings.Join(ps, " ") + "))"
+			bt += ")"
 		}
 		return CV{T: "(" + e.Name + " (" + strings.Join(bs, " ") + ") " + bt + ")", Sort: "Bool"}
 	case "typeis":
